@@ -585,3 +585,78 @@ pub fn unwind_drop_checks() -> Vec<String> {
     }
     fails
 }
+
+/// A consumer that polls only when it has been woken, behind a producer that queued MANY chunks and is then
+/// done (dropped) or idle: it must get every queued chunk and, if the writer is gone, the end -- it may not
+/// be left parked while chunks or the termination are pending (C10). Harness-level checks.
+pub fn long_queue_checks() -> Vec<String> {
+    struct Flag(std::sync::atomic::AtomicUsize);
+    impl std::task::Wake for Flag {
+        fn wake(self: Arc<Self>) {
+            self.0.fetch_add(1, std::sync::atomic::Ordering::SeqCst);
+        }
+    }
+    let mut fails = vec![];
+    for (cap, total) in [(1usize, 300usize), (2, 520), (1, 1000), (3, 4000), (4096, 3_000_000)] {
+        for drop_writer in [true, false] {
+            let req = http::Request::builder().method("GET").body(()).unwrap();
+            let (resp, writer) = http_serve::streaming_body(&req).with_chunk_size(cap).build::<Bytes, BoxError>();
+            let mut body: SBody = Box::pin(resp.into_body());
+            let mut w = writer.unwrap();
+            let data: Vec<u8> = (0..total).map(|i| (i % 251) as u8).collect();
+            let tag = format!("cap={} bytes={} writer-dropped={}", cap, total, drop_writer);
+            if w.write_all(&data).is_err() || w.flush().is_err() {
+                fails.push(format!("write-to-live-body-failed({})", tag));
+                continue;
+            }
+            let keep = if drop_writer {
+                drop(w);
+                None
+            } else {
+                Some(w)
+            };
+            let flag = Arc::new(Flag(std::sync::atomic::AtomicUsize::new(0)));
+            let waker = Waker::from(flag.clone());
+            let mut cx = Context::from_waker(&waker);
+            let mut got = 0usize;
+            let mut ended = false;
+            let mut rounds = 0;
+            // poll until Pending; poll again only if woken in the meantime (the producer does nothing more)
+            loop {
+                rounds += 1;
+                let before = flag.0.load(std::sync::atomic::Ordering::SeqCst);
+                let mut pending = false;
+                for _ in 0..(total + 16) {
+                    match body.as_mut().poll_frame(&mut cx) {
+                        Poll::Pending => {
+                            pending = true;
+                            break;
+                        }
+                        Poll::Ready(None) => {
+                            ended = true;
+                            break;
+                        }
+                        Poll::Ready(Some(Err(_))) => {
+                            ended = true;
+                            break;
+                        }
+                        Poll::Ready(Some(Ok(f))) => got += f.into_data().map(|d| d.len()).unwrap_or(0),
+                    }
+                }
+                if ended || !pending || rounds > 64 {
+                    break;
+                }
+                if flag.0.load(std::sync::atomic::Ordering::SeqCst) == before {
+                    break; // parked and not woken: nobody will poll it again
+                }
+            }
+            if got != total {
+                fails.push(format!("consumer-parked-while-chunks-are-queued({} got={})", tag, got));
+            } else if drop_writer && !ended {
+                fails.push(format!("consumer-parked-while-the-termination-is-pending({})", tag));
+            }
+            drop(keep);
+        }
+    }
+    fails
+}
